@@ -2,6 +2,7 @@
 mod c03;
 mod c01api;
 mod c05n;
+mod c05api;
 mod c06;
 mod c06rtt;
 mod c02;
@@ -133,6 +134,9 @@ fn main() {
             let mut o = c10::generate(seed, scale, cmd == "c05");
             if cmd == "c05" {
                 let mut r5 = rng::Rng::new(seed ^ 0x5005);
+                for (cat, term) in c05api::generate(&mut r5) {
+                    o.push(&cat, term);
+                }
                 for (cat, term) in c05n::generate(&mut r5, scale) {
                     o.push(&cat, term);
                 }
